@@ -251,6 +251,30 @@ def main():
                 "why": "the %s variant of the program gets different diagnostics, lines, columns or underlined text" % what,
                 "files": {"m.pn": vsrc}, "harness_request": "diag\tm.pn\t" + esc(vsrc),
                 "expected (kind, code, line, col, text)": sorted(want)[:8], "got": sorted(got)[:8]})
+    # the second generation: a stray character of 2 to 4 bytes (last byte at either end of the continuation range) in front
+    # of a token: exactly one E110 per character, and its diagnostics render (the location ends on a character boundary)
+    strays = ["\u00bf", "\u00ff", "\u20bf", "\u0080", "\u07ff", "\uffff", "\U0001f63f", "\U0010ffff", "\u00e9", "\u20ac"]
+    sv = []
+    for k, (i, src) in enumerate(base[:(600 if thorough else 60)]):
+        ch = strays[k % len(strays)] * (1 + k % 2)
+        lines = src.split("\n")
+        j = (k * 7) % max(1, len(lines))
+        sv.append((ch, "\n".join(lines[:j] + [" " + ch + " " + lines[j]] + lines[j + 1:]), src))
+    base110 = [kv(a_)[1].get("codes", "").split(",").count("110") for a_ in run_harness(["delta\txml\t" + esc(b_.encode()) for _, _, b_ in sv])]
+    for (ch, vsrc, _b), va, n_base in zip(sv, run_harness(["delta\txml\t" + esc(vsrc.encode()) for _, vsrc, _ in sv]), base110):
+        hh, hd = kv(va)
+        dist["delta-stray-character:" + hh[:8]] += 1
+        problems = []
+        if hh in ("crash", "panic") or "render=FAIL" in va:
+            problems.append("the second generation cannot render its diagnostics: " + va[:200])
+        elif hh == "lexerr":
+            n110 = hd.get("codes", "").split(",").count("110") - n_base
+            if n110 != len(ch):
+                problems.append("%d E110 for %d stray character(s) %r" % (n110, len(ch), ch))
+        else:
+            problems.append("a stray character is not a lexical error: " + va[:120])
+        if problems:
+            rep.violation("delta-stray:" + repr(ch) + ":" + str(hash_str(vsrc)), {"why": problems, "files": {"m.pn": vsrc}, "harness_request": "delta\txml\t" + esc(vsrc.encode())})
     # determinism: fresh processes must print identical diagnostics (primary locations and the hash of the complete rendered
     # text: messages, secondary labels, notes) / IR.  Inputs with dependency cycles (several candidates for every label,
     # collected in hash sets by the scoper) are all re-run.
